@@ -321,3 +321,47 @@ def w_ops(tier='quick', headers=0, other_ns=False):
     return sc, Info(wsdl=w, opn=opn, eln=eln, partn=partn, has_out=has_out, svc=svc, headers=hparts, parts_attr=parts_attr,
                     ops=[dict(name=opn, body_el=eln, headers=[h[1].split(':')[1] for h in hparts], has_output=has_out, out_el='GetQuoteResponse'),
                          dict(name='Ping', body_el='PingRequest', headers=[], has_output=True, out_el='PingResponse')])
+
+
+NS3 = 'http://example.com/v3/core'
+
+
+def q_default(tier='quick'):
+    """UNPREFIXED references (default xmlns = target namespace) while an imported file declares a type of the same
+    local name: the reference must denote the importer's own type"""
+    addr1 = CT('Address', Seq([El('host', 'xs:string'), El('port', 'xs:unsignedShort', '0')]))
+    addr2 = CT('Address', Seq([El('street', 'xs:string'), El('city', 'xs:string')]))
+    sch_b = Schema(NS2, [addr2], prefixes={'m': NS2})
+    der = CT('WeightedAddress', Seq([El('weight', 'xs:int')]), base='Address')
+    user = CT('Endpoint', Seq([El('address', 'Address')]))
+    order = Selector('order', perms(3) if tier == 'thorough' else [(0, 1, 2), (2, 1, 0), (1, 0, 2)])
+    sch_a = Schema(NS1, [addr1, der, user], prefixes={'m': NS2}, imports=[(NS2, 'b.xsd')], order=order, default_ns=NS1)
+    sc = Scenario('Q-default', {'a.xsd': sch_a, 'b.xsd': sch_b}, 'a.xsd', [order])
+    return sc, Info(schemas={'a.xsd': sch_a, 'b.xsd': sch_b}, simple=[], subjects=[], default=True)
+
+
+def x_cross3(tier='quick'):
+    """chain crossing two namespace boundaries: core.xsd <- mid.xsd <- main.xsd; inherited members keep the namespace
+    of the schema that declared them"""
+    core = CT('CoreType', Seq([El('Id', 'xs:string')]), attrs=[Attr('Tag', 'xs:string')])
+    sch_c = Schema(NS3, [core], prefixes={'cor': NS3})
+    mid = CT('MidType', Seq([El('Name', 'xs:string')]), base='cor:CoreType')
+    sch_m = Schema(NS2, [mid], prefixes={'mid': NS2, 'cor': NS3}, imports=[(NS3, 'core.xsd')])
+    leaf = CT('LeafType', Seq([El('Own', 'xs:int')]), base='mid:MidType')
+    sch_a = Schema(NS1, [leaf], prefixes={'app': NS1, 'mid': NS2}, imports=[(NS2, 'mid.xsd')])
+    sc = Scenario('X-cross3', {'main.xsd': sch_a, 'mid.xsd': sch_m, 'core.xsd': sch_c}, 'main.xsd', [])
+    return sc, Info(schemas={'main.xsd': sch_a, 'mid.xsd': sch_m, 'core.xsd': sch_c}, subjects=[('core.xsd', core)],
+                    derived=[('mid.xsd', mid, ('core.xsd', core)), ('main.xsd', leaf, ('mid.xsd', mid))], simple=[],
+                    bases={'CoreType': None, 'MidType': ('core.xsd', core), 'LeafType': ('mid.xsd', mid)})
+
+
+def three_ns_doc():
+    """one struct with element members from two foreign namespaces (ref= to elements of two imported files)"""
+    e1 = GEl('Customer', content=Seq([El('c', 'xs:string')]))
+    e2 = GEl('Product', content=Seq([El('p', 'xs:string')]))
+    sch_c = Schema('http://example.com/customer', [e1], prefixes={'cus': 'http://example.com/customer'})
+    sch_p = Schema('http://example.com/product', [e2], prefixes={'pro': 'http://example.com/product'})
+    order = CT('OrderType', Seq([El(ref='cus:Customer'), El(ref='pro:Product'), El('n', 'xs:int')]))
+    sch_o = Schema('http://example.com/order', [order], prefixes={'ord': 'http://example.com/order', 'cus': 'http://example.com/customer', 'pro': 'http://example.com/product'},
+                   imports=[('http://example.com/customer', 'customer.xsd'), ('http://example.com/product', 'product.xsd')])
+    return {'order.xsd': sch_o, 'customer.xsd': sch_c, 'product.xsd': sch_p}
